@@ -473,6 +473,8 @@ def cases(tier, seed):
                 if n == 3:
                     for rt in ('stop', 'base', 'key', 'two', 'fnf', 'uni', 'rte', 'nie', 'rec', 'val', 'os', 'asrt'):
                         enum_cfgs.append({'impl': impl, 'n': n, 'threads': threads, 'chunk': n, 'raise': [r], 'raise_type': rt})
+                        if impl == 'threading' and r == 1:
+                            enum_cfgs.append({'impl': impl, 'n': n, 'threads': threads, 'chunk': rng.choice([2, n]), 'raise': [r], 'raise_type': rt, 'sort': False})
             enum_cfgs.append({'impl': impl, 'n': n, 'threads': threads, 'chunk': 2, 'raise': [0, n - 1]})
     rng.shuffle(enum_cfgs)
     for cfg in enum_cfgs:
